@@ -193,7 +193,8 @@ fn render(sc: &TScenario) -> String {
 
 static PLAN: Mutex<Option<TScenario>> = Mutex::new(None);
 static EXECUTED: Mutex<Vec<usize>> = Mutex::new(Vec::new());
-static WIDTHS: Mutex<Vec<u16>> = Mutex::new(Vec::new());
+/// (bytes captured so far when the width was set, width)
+static WIDTHS: Mutex<Vec<(usize, u16)>> = Mutex::new(Vec::new());
 static MASTER: std::sync::atomic::AtomicI32 = std::sync::atomic::AtomicI32::new(-1);
 
 fn set_cols(cols: u16) {
@@ -201,7 +202,8 @@ fn set_cols(cols: u16) {
     unsafe {
         libc::ioctl(MASTER.load(std::sync::atomic::Ordering::SeqCst), libc::TIOCSWINSZ, &ws);
     }
-    WIDTHS.lock().unwrap().push(cols);
+    let at = tty::CAPTURED.lock().map(|c| c.len()).unwrap_or(0);
+    WIDTHS.lock().unwrap().push((at, cols));
 }
 
 fn sim_cmd(cmdline: &str, out: &mut dyn FnMut(&[u8])) -> anyhow::Result<Termination> {
@@ -289,10 +291,10 @@ fn prepare(sc: &TScenario, dir: &str) {
     EXECUTED.lock().unwrap().clear();
     WIDTHS.lock().unwrap().clear();
     PANICS.lock().unwrap().clear();
+    tty::CAPTURED.lock().unwrap().clear();
     set_cols(sc.cols);
     tty::CLOCK_NS.store(1_000_000_000, std::sync::atomic::Ordering::SeqCst);
     tty::TIMEOUT_BUDGET.store(sc.timeout_budget, std::sync::atomic::Ordering::SeqCst);
-    tty::CAPTURED.lock().unwrap().clear();
     *n2::verif::SHUTTLE_CMD.lock().unwrap() = Some(sim_cmd);
     let mut args: Vec<String> = vec!["-j".into(), sc.j.to_string()];
     if let Some(k) = sc.k {
@@ -476,11 +478,14 @@ fn judge(sc: &TScenario, panicked: bool) -> TResult {
             w as usize
         }
     };
-    let max_w = widths.iter().map(|w| eff(*w)).max().unwrap_or(80);
-    let cur_w = eff(sc.cols);
+    // the width in effect when the frame starting at stream offset `at` was rendered
+    // (resizes happen inside simulated commands, i.e. between frames)
+    let width_at = |at: usize| -> usize { widths.iter().filter(|(p, _)| *p <= at).last().map(|(_, w)| eff(*w)).unwrap_or(80) };
     let mut nframes = 0;
     let mut pos = 0;
     let mut shapes: Vec<(usize, usize)> = Vec::new();
+    // what was printed outside the overprinted status frames
+    let mut persistent: Vec<u8> = Vec::new();
     while let Some(rel) = find_cursor_up(&cap[pos..]) {
         let (start, end, n) = (pos, pos + rel.0, rel.2);
         let chunk = &cap[start..end];
@@ -498,6 +503,10 @@ fn judge(sc: &TScenario, panicked: bool) -> TResult {
             break;
         }
         let frame = &lines[lines.len() - n..];
+        for l in &lines[..lines.len() - n] {
+            persistent.extend_from_slice(l);
+            persistent.push(b'\n');
+        }
         let mut bar = frame[0];
         if let Some(p) = find_sub(bar, b"\r\x1b[J") {
             bar = &bar[p + 4..];
@@ -515,7 +524,7 @@ fn judge(sc: &TScenario, panicked: bool) -> TResult {
             }
         }
         for l in &frame[1..] {
-            let limit = if resized { max_w } else { cur_w };
+            let limit = width_at(end);
             match std::str::from_utf8(l) {
                 Err(_) => v.push(("task-line-utf8".into(), format!("task line is not valid UTF-8: {:?}", String::from_utf8_lossy(l)))),
                 Ok(t) => {
@@ -536,6 +545,44 @@ fn judge(sc: &TScenario, panicked: bool) -> TResult {
         }
         if !v.is_empty() {
             break;
+        }
+    }
+    persistent.extend_from_slice(&cap[pos.min(cap.len())..]);
+    // ---- every finished task's output reaches the terminal exactly once (nothing lost or
+    // duplicated by the hand-over between main thread, progress thread and shutdown)
+    if v.is_empty() && matches!(result, Some(Ok(0))) && sc.steps.iter().all(|s| !s.fail) {
+        let count = |hay: &[u8], needle: &[u8]| -> usize {
+            if needle.is_empty() || hay.len() < needle.len() {
+                return 0;
+            }
+            hay.windows(needle.len()).filter(|w| *w == needle).count()
+        };
+        let outs: Vec<(usize, Vec<u8>)> = sc
+            .steps
+            .iter()
+            .filter(|s| executed.contains(&s.id))
+            .map(|s| {
+                let mut o: Vec<u8> = s.chunks.concat();
+                if !o.is_empty() && !o.ends_with(b"\n") {
+                    o.push(b'\n');
+                }
+                (s.id, o)
+            })
+            .collect();
+        for (id, o) in &outs {
+            if o.len() < 12 {
+                continue;
+            }
+            // skip outputs that are not distinctive (contained in another task's output or in a description)
+            if outs.iter().any(|(j, p)| j != id && count(p, o) > 0) || sc.steps.iter().any(|s| count(s.desc.as_bytes(), &o[..o.len() - 1]) > 0) {
+                continue;
+            }
+            let n = count(&persistent, o);
+            bump(&mut stats, "probe.task_output_checked_once");
+            if n != 1 {
+                v.push(("task-output-shown-once".into(), format!("the {} bytes printed by the command of step {} appear {} times on the terminal", o.len(), id, n)));
+                break;
+            }
         }
     }
     bump(&mut stats, if nframes > 0 { "probe.run_with_frames" } else { "probe.run_without_frames" });
@@ -942,7 +989,7 @@ fn check(tier: &str) -> i32 {
                 "stub": ["std::thread / Mutex / Condvar / mpsc -> shuttle", "Instant, sleep, condvar time-outs -> simulated clock", "subprocess -> scripted commands", "progress_fancy's stdout -> capture buffer"]
             }
         },
-        "assumptions": ["seeded search over schedules and inputs: a clean batch is evidence, not proof", "with mid-build resizes the width bound checked is the widest width used in the run"]
+        "assumptions": ["seeded search over schedules and inputs: a clean batch is evidence, not proof"]
     });
     let _ = std::fs::create_dir_all(format!("{}/evidence", VERIF));
     std::fs::write(format!("{}/evidence/{}.json", VERIF, prop), serde_json::to_string_pretty(&ev).unwrap()).unwrap();
